@@ -708,7 +708,63 @@ class Renderer:
         return PRELUDE + "\n".join(self.lines) + "\n"
 
 
+def views_ir(rng):
+    """Directed programs for 'all views of a measurement agree': every kind of @tracked owner (variable,
+    register, object field, object register field) is prepared in a random basis pattern, measured
+    element-wise or as a register, echoed, and then dies by scope exit or destroy."""
+    ir = [dict(k="ops")]
+    uid = [0]
+
+    def fresh(p):
+        uid[0] += 1
+        return "%s%d" % (p, uid[0])
+
+    def owner_block():
+        kind = rng.choice(["var", "reg", "HT", "HA", "HA", "H1"])
+        body = []
+        if kind == "var":
+            n = fresh("t")
+            body.append(dict(k="decl", name=n, n=None, tracked=True))
+            refs, whole = [("v", n)], None
+        elif kind == "reg":
+            n, size = fresh("r"), rng.randint(2, 3)
+            body.append(dict(k="decl", name=n, n=size, tracked=True))
+            refs, whole = [("e", n, i, "c") for i in range(size)], ("reg", n, None)
+        else:
+            n = fresh("o")
+            body.append(dict(k="new", name=n, cls=kind, via=rng.choice(["new", "func"])))
+            if kind == "HT":
+                refs, whole = [("f", n, "tq")], None
+            elif kind == "HA":
+                refs, whole = [("fe", n, "ta", i) for i in range(3)], ("freg", n, "ta")
+            else:
+                refs, whole = [("fe", n, "qs", i) for i in range(2)], ("freg", n, "qs")
+        for q in refs:
+            if rng.random() < 0.5:
+                body.append(dict(k="gate", g="x", via=rng.choice(["direct", "func"]), qs=[q], theta=None))
+        if whole and rng.random() < 0.5:
+            body.append(dict(k="measure_reg", kind=whole[0], name=whole[1], field=whole[2]))
+        else:
+            order = list(refs)
+            rng.shuffle(order)
+            for q in order[:rng.randint(max(1, len(order) - 1), len(order))]:
+                form = rng.choice(["stmt", "expr", "echoexpr", "qfunc"])
+                b = fresh("b") if form in ("expr", "qfunc") else None
+                body.append(dict(k="measure", q=q, form=form, bit=b))
+                if b:
+                    body.append(dict(k="echo_bit", bit=b))
+        if kind in ("HT", "HA", "H1") and rng.random() < 0.5:
+            body.append(dict(k="destroy", name=n))
+        return dict(k="block", body=body)
+    for _ in range(rng.randint(2, 4)):
+        ir.append(owner_block())
+    return ir
+
+
 def generate(rng, profile, length=None, shots_annotation=None, max_qubits=6):
+    if profile == "views":
+        ir = views_ir(rng)
+        return ir, Renderer(shots_annotation).render(ir)
     g = Gen(rng, profile, max_qubits=max_qubits)
     ir = g.program(length if length is not None else rng.randint(6, 18))
     src = Renderer(shots_annotation).render(ir)
@@ -1311,6 +1367,8 @@ def run_language_path(ctx, prop):
     profile = PROFILE_OF[prop]
     n = ctx.n(*COUNTS[prop])
     cases = [dict(profile=profile, index=i) for i in range(n)]
+    if prop == "C02":
+        cases += [dict(profile="views", index=i, shots=(3 if i % 2 else 0)) for i in range(ctx.n(120, 2000))]
 
     def one(case):
         return case, check_case(ctx, prop, binary, case)
